@@ -214,13 +214,16 @@ def _laws(case, ctx):
     tol = TOL_CG if white else (TOL_BURES if bures else TOL_PLAIN)
     g = rng_for(ctx.seed, 'laws', n, fill)
     if bures:
-        # Euclidean-embeddable RDMs: squared distances of random points
+        # Euclidean-embeddable RDMs: squared distances of random points in n-1 (>= 3) dimensions, at
+        # full precision: rounding the distances makes a rank-deficient configuration (5 points in
+        # 3-d) slightly non-embeddable, and the matrix square root amplifies a 1e-5 negative
+        # eigenvalue to a 3e-5 asymmetry - an artefact of the inputs, outside the quantifier
         def make(k):
             out = []
             for _ in range(k):
-                p = g.normal(size=(n, 3))
+                p = g.normal(size=(n, max(3, n - 1)))
                 out.append([float(np.sum((p[i] - p[j]) ** 2)) for i, j in combi.pair_index(n)])
-            return np.round(np.array(out), 5)
+            return np.array(out)
     else:
         def make(k):
             v = _fills(k, L, ctx.seed, 1000 * fill + 17 * n + int(g.integers(1 << 20)))
